@@ -218,6 +218,15 @@ class TermCharset:
 
         self.activate(0)
 
+    def __copy__(self) -> TermCharset:
+        # the designations are a list: a saved copy (ESC 7) must not follow later designations
+        new = TermCharset()
+        new._g = list(self._g)
+        new._sgr_mapping = self._sgr_mapping
+        new.active = self.active
+        new.current = self.current
+        return new
+
     def define(self, g: int, charset: str) -> None:
         """
         Redefine G'g' with new mapping.
